@@ -364,6 +364,19 @@ func operations() []operation {
 			}
 			return bufx.MarshalImage(out)
 		}},
+		{"image-paths", func(ctx context.Context, env Env) ([]byte, error) {
+			// an image used as input with --path values (files and a directory) listed in any order
+			img, err := buildImage(ctx, env, 1)
+			if err != nil {
+				return nil, err
+			}
+			paths := shuffled([]string{"beta/v1/b2.proto", "acme/pet/v1/f009.proto", "acme/pet.v2/f005.proto", "cyc/pb", "acme/pet-store/v1/f004.proto"}, env.ArgSeed+int64(env.Rep))
+			out, err := bufimage.ImageWithOnlyPaths(img, paths, nil)
+			if err != nil {
+				return nil, err
+			}
+			return bufx.MarshalImage(out)
+		}},
 		{"type-filter-extensions", func(ctx context.Context, env Env) ([]byte, error) {
 			// known-extension retention over a chain of extensions, and a custom option named together with a
 			// message that uses it: the closure must not depend on map iteration or on the order of the names
